@@ -78,3 +78,44 @@ pub fn received_ack_of_native(reset: bool) -> u32 {
         1
     }
 }
+
+/// Native replay body for the E2 query `e2_chunks_next_eos` (C01 / C11): the FIN-carrying frame
+/// (bytes 4..8) arrives while bytes 0..4 are still missing (`gap`) or after them.  End of stream
+/// (`Ok(None)`) may only be reported once all 8 bytes have been handed to the application.
+pub fn chunks_next_eos_native(gap: bool, ordered: bool) -> u32 {
+    use super::state::verif::{mk_streams, Scalars};
+    let mut st = mk_streams(&Scalars {
+        server: true, max_remote: [4, 4], sent_max_remote: [4, 4], allocated_remote_count: [4, 4], max_concurrent_remote_count: [4, 4],
+        receive_window: 1 << 20, local_max_data: 1 << 20, sent_max_data: 1 << 20, stream_receive_window: 1 << 16, ..Default::default()
+    });
+    let mut pending = Retransmits::default();
+    let id = StreamId::new(crate::Side::Client, Dir::Uni, 0);
+    st.insert(true, id); // as StreamsState::new does for every stream the peer may open
+    if !gap {
+        st.received(frame::Stream { id, offset: 0, fin: false, data: Bytes::from_static(b"abcd") }, 4).unwrap();
+    }
+    st.received(frame::Stream { id, offset: 4, fin: true, data: Bytes::from_static(b"efgh") }, 4).unwrap();
+    let mut delivered = 0u64;
+    let mut rs = RecvStream { id, state: &mut st, pending: &mut pending };
+    let mut chunks = rs.read(ordered).expect("stream is readable");
+    let mut outcome = 0;
+    for _ in 0..4 {
+        match chunks.next(usize::MAX) {
+            Ok(Some(c)) => delivered += c.bytes.len() as u64,
+            Ok(None) => {
+                assert!(delivered == 8, "end of stream reported after only {} of 8 bytes were delivered", delivered);
+                outcome = 1;
+                break;
+            }
+            Err(ReadError::Blocked) => {
+                assert!(gap, "a completely received stream reported as blocked");
+                outcome = 2;
+                break;
+            }
+            Err(ReadError::Reset(_)) => panic!("stream was not reset"),
+        }
+    }
+    let _ = chunks.finalize();
+    assert!(outcome == if gap { 2 } else { 1 });
+    outcome
+}
